@@ -55,6 +55,9 @@ CHECKS["C19"] = ("model_checking", "bounded-exhaustive exploration of the real c
 CHECKS["C20"] = ("model_checking", "bounded-exhaustive exploration of the real code: all dictionaries of 1-2 (thorough 1-3) entries over 4 key sets x a 6-string output pool x 3 smart-space modes; for every entry every press permutation x gap vector x shift held or not x release order x continuation, two-round scenarios for every ordered entry pair with three interruption kinds, follow-up chords, and all generic histories of D steps; the OS output is replayed into a text-buffer model",
   "For every explored execution the text left on screen is exactly the expansion (plus smart space) followed by what was typed afterwards, non-chord typing passes through unchanged, the OS shift state equals the physical one, and nothing stays pressed.",
   "US-layout text model; chords whose presses span the deadline boundary (processing latency included) are don't-cares; capitalised-first-letter form accepted when the user holds shift", "DESIGN.md §4 C20")
+CHECKS["C15"] = ("fault_enumeration", "exhaustive enumeration of (old config x new file content incl. every failure kind x request kind x history before x idle gap x continuation) on real files through the real Kanata::new / handle_time_ticks (virtual clock hook) / do_live_reload, driven by a transcription of the processing loop; differential oracles: failed reload vs a twin without reload keys, successful reload vs a fresh Kanata::new of the new file; message-channel and timing obligations",
+  "For every enumerated case a reload that cannot load the file leaves behaviour identical to never having asked; a reload that can is applied exactly when allowed, announces itself once with the active layer, leaves nothing pressed, and afterwards the instance is indistinguishable (on the continuations) from a fresh start of the new file.",
+  "continuations are bounded (<= 2 steps of 4 kinds); permission errors not producible; H3 clock injection checked per call", "DESIGN.md §4 C15")
 NOT_YET = {}
 props = [json.loads(l) for l in open('/verif/properties.jsonl')]
 hooks_commits = subprocess.run(["git","-C","/repo","log","--format=%h %s"],capture_output=True,text=True).stdout.splitlines()
